@@ -303,7 +303,7 @@ func runC10(ctx *core.Ctx) {
 	add("SetWideBytes", lengthCases(64))
 	subC10Set.RunList(ctx, cases)
 	if ctx.DistinctCount("equal-outcomes") != 2 || ctx.DistinctCount("accept") != 2 {
-		core.InternalError("C10: vacuous coverage")
+		ctx.Vacuous("C10: vacuous coverage")
 	}
 	if n := ctx.DistinctCount("outside-box"); n > 0 {
 		ctx.Note("setters produced limbs outside the model box for some inputs (informational)")
